@@ -267,4 +267,38 @@ def storeAfterCycles (N : Nat) (E : Exp) : Nat → Doc
 
 def compIds (L : Doc) : List (Nat × Name × Bool) := L.comps.map fun c => (c.stage, c.name, c.isDoc)
 
+/-! ## reload that does not name the platform
+
+`Experiment.experimentFromInstance(dir)` (what ewrap/etest/ememo/einspect call) loads the stored description
+for platform `default` (= `0`); the platform the instance was created for is expected to be folded into the
+`default` sections by `instance()`. -/
+
+/-- `experimentFromInstance(dir, platform=Q)` of the instance written by `E` -/
+def reloadAs (N : Nat) (E : Exp) (Q : Name) : Exp := { doc := store N E, plat := Q, patches := [] }
+
+/-- the stored description without the raw `override` blocks of its (non-document) components: what
+`instance()` writes when the description is stored for a platform no override block is about
+(`del comp['override']`, flowir.py 5336-5345) -/
+def dropOvr (L : Doc) : Doc :=
+  { L with comps := L.comps.map fun c => if c.isDoc then c else { c with ovr := [] } }
+
+/-- stronger decidable precondition of the platform-less reload theorem: in the context of every component the
+fuel also resolved the visible global/stage variables and the layered options (their values may mention
+undefined names such as `%(replica)s`, but no defined one is left) -/
+def resolvesFully (N : Nat) (L : Doc) (P : Name) : Bool :=
+  L.comps.all fun c => c.isDoc ||
+    (dictClosed (cctx N L P c) (mapVals (interp N (cctx N L P c)) (update (gvars N L P) (svars N L P c.stage)))
+      && dictClosed (cctx N L P c) (mapVals (interp N (cctx N L P c)) (layeredOpts L P c)))
+
+/-- the `platforms` field of the stored description: `sorted(set([default, platform]))` (flowir.py 5430) -/
+def storedPlatforms (P : Name) : List Name := if P == 0 then [0] else [0, P]
+
+/-- a description can be loaded for platform `Q` only if it lists `Q` (`FlowIRPlatformUnknown` otherwise) -/
+def loadable (plats : List Name) (Q : Name) : Bool := plats.contains Q
+
+/-- the description on disk after `k` load+store cycles that name the platform followed by `m` cycles that do not -/
+def storeAfterMixed (N : Nat) (E : Exp) (k : Nat) : Nat → Doc
+  | 0 => storeAfterCycles N E k
+  | m + 1 => flatten N (storeAfterMixed N E k m) 0
+
 end St4sd.Instance
